@@ -12,6 +12,7 @@ Executions are isolated: one Sched object per execution, every virtual object
 is bound to it, and threads still alive when the execution ends are released by
 raising Poison (a BaseException) at their next yield point.
 """
+import os
 import random
 import threading
 import time
@@ -83,8 +84,17 @@ class SequentialPolicy(Policy):
             for i, o in enumerate(options):
                 if o.startswith('u'):
                     return i
-            if current is not None and current in options:
+            idle = getattr(self, 'stuttering', set())
+            busy = [o for o in options if o not in idle]
+            if current is not None and current in options and not (current in idle and busy):
                 return options.index(current)
+            if busy:                    # a thread that only polls does not keep the token from one that can move
+                options_busy = [o for o in options if o in busy]
+                for pref in ('n', 's'):
+                    for o in options_busy:
+                        if o.startswith(pref):
+                            return options.index(o)
+                return options.index(options_busy[0])
             for pref in ('n', 's'):
                 for i, o in enumerate(options):
                     if o.startswith(pref):
@@ -329,6 +339,11 @@ class Sched(object):
         vt.go.set()
         ok = self.done.wait(self.wall_timeout)
         if not ok:
+            if os.environ.get('VERIF_DEBUG_WATCHDOG'):
+                import faulthandler
+                with open(os.environ['VERIF_DEBUG_WATCHDOG'], 'a') as f:
+                    f.write('==== watchdog after %d steps, current %r\n' % (self.steps, self.current and self.current.name))
+                    faulthandler.dump_traceback(file=f, all_threads=True)
             self.error = 'wall-clock watchdog expired (machinery hang?)'
             self._finish('error')
         # give poisoned threads a moment to unwind
